@@ -38,7 +38,7 @@ RULE = ("each run draws a body length (dense around 0, 1, 2^14+-2, 2^15, 2^16+-2
         "sizes and ciphertext cuts, and serves it over BOTH TLS backends. distinct = distinct "
         "(length, reader, buffer, cut-signature); non-trivial = body >= 1 byte and the reader or "
         "the network was not the default")
-PROBES = ["file_of_exactly_max_file_size", "client_resumes_tls_session", "tls_session_actually_resumed", "request_in_two_records_with_the_handshake", "stray_bytes_while_handler_pending", "handler_finishes_after_request_timeout", "file_with_byte_order_mark", "status_21_to_29", "backpressure_pause_writing", "body_ge_16k", "body_ge_64k", "body_ge_6MiB", "half_closing_reader", "nauyaca_client_as_reader", "slow_reader", "bursty_reader",
+PROBES = ["client_speaks_tls12", "file_of_exactly_max_file_size", "client_resumes_tls_session", "tls_session_actually_resumed", "request_in_two_records_with_the_handshake", "stray_bytes_while_handler_pending", "handler_finishes_after_request_timeout", "file_with_byte_order_mark", "status_21_to_29", "backpressure_pause_writing", "body_ge_16k", "body_ge_64k", "body_ge_6MiB", "half_closing_reader", "nauyaca_client_as_reader", "slow_reader", "bursty_reader",
           "ciphertext_cut", "static_file", "start_server", "very_slow_reader_over_30s"]
 COMPONENTS = {
     "real": ["nauyaca.server.protocol._send_response", "nauyaca.server.tls_protocol (TLS pump)",
@@ -170,7 +170,7 @@ def _serve_once(ch, backend, cfg, scratch):
             # an earlier, ordinary connection of the same client; the judged connection then
             # offers that TLS session for resumption
             ep0 = raw_connect(net, HOST, 1965, c2s=WholePolicy(0.001), s2c=WholePolicy(0.001))
-            peer0 = RawPeer(net, ep0, [("send", url.encode() + b"\r\n")], tls_ctx=fx.client_ctx(),
+            peer0 = RawPeer(net, ep0, [("send", url.encode() + b"\r\n")], tls_ctx=fx.client_ctx(None, False),
                             name="earlier")
             for _ in range(400):
                 await asyncio.sleep(0.25)
@@ -202,7 +202,7 @@ def _serve_once(ch, backend, cfg, scratch):
             # the reader says goodbye (close_notify, FIN) right behind its request and
             # then only reads
             pscript.append(("close",))
-        peer = RawPeer(net, ep, pscript, tls_ctx=fx.client_ctx(), name="reader",
+        peer = RawPeer(net, ep, pscript, tls_ctx=fx.client_ctx(None, bool(cfg.get("client_tls12"))), name="reader",
                        coalesce_first=(cfg.get("split_request") == 1), tls_session=session, **kw)
         t_end = cfg["deadline"]
         while net.now < t_end:
@@ -321,6 +321,10 @@ def run_one(ch):
         cfg["s2c_mode"] = 0       # no size-dependent draws: ticket lengths are not a function of the tape
         cfg["deadline"] += 100.0
         res.stats["client_resumes_tls_session"] += 1
+    if reader != "client" and not cfg.get("resume") and ch.chance("client_tls12", 0.12):
+        # a client that negotiates TLS 1.2 (the minimum the servers accept)
+        cfg["client_tls12"] = True
+        res.stats["client_speaks_tls12"] += 1
     if reader != "client" and ch.chance("split_request", 0.15):
         # URL and CRLF as two TLS records in the flight of the client's Finished
         cfg["split_request"] = 1 + ch.choose("split_at_crlf", 2)     # 2: CR and LF in different reads
